@@ -426,6 +426,42 @@ def run_c12(tier: str) -> int:
     return rep.finish()
 
 
+def _cache_objects_case(i: int, co: Any, base: str) -> Dict[str, Any]:
+    import gc
+    import weakref
+    import dds
+    import dds._api as api
+    root = os.path.join(base, "c%d" % i)
+    dds.set_store("local", internal_dir=os.path.join(root, "i"), data_dir=os.path.join(root, "d"), cache_objects=co)
+    st = api._store_var
+    keys = ["k%d" % (3 * j + 2) for j in range(14)]   # Obj-valued keys
+    for k in keys:
+        st.store_blob(storedrv.real_key(k), storedrv.value_of(k, []), None)
+    refs = []
+    bad = ""
+    for k in keys:
+        v = st.fetch_blob(storedrv.real_key(k))
+        if v != storedrv.value_of(k, []):
+            bad = "wrong value"
+        refs.append(weakref.ref(v))
+        del v
+    gc.collect()
+    alive = len([r for r in refs if r() is not None])
+    if co in (None, False, 0):
+        bound = 0
+    elif co is True:
+        bound = 10     # "conservatively small" documented default
+    elif co < 0:
+        bound = len(keys)
+    else:
+        bound = co
+    if alive > bound:
+        bad = "retains %d objects, bound %d" % (alive, bound)
+    if co == -1 and alive < len(keys):
+        bad = "negative value must cache everything, retains %d of %d" % (alive, len(keys))
+    return {"cache_objects": co, "alive": alive, "bound": bound, "bad": bad}
+
+
 def cache_objects_probe() -> List[Dict[str, Any]]:
     """dds.set_store('local', ..., cache_objects=x): number of fetched objects retained."""
     import gc
@@ -436,35 +472,11 @@ def cache_objects_probe() -> List[Dict[str, Any]]:
     res = []
     base = common.sub_scratch("cacheobj")
     for (i, co) in enumerate([None, False, True, 0, -1, 1, 3]):
-        root = os.path.join(base, "c%d" % i)
-        dds.set_store("local", internal_dir=os.path.join(root, "i"), data_dir=os.path.join(root, "d"), cache_objects=co)
-        st = api._store_var
-        keys = ["k%d" % (3 * j + 2) for j in range(14)]   # Obj-valued keys
-        for k in keys:
-            st.store_blob(storedrv.real_key(k), storedrv.value_of(k, []), None)
-        refs = []
-        bad = ""
-        for k in keys:
-            v = st.fetch_blob(storedrv.real_key(k))
-            if v != storedrv.value_of(k, []):
-                bad = "wrong value"
-            refs.append(weakref.ref(v))
-            del v
-        gc.collect()
-        alive = len([r for r in refs if r() is not None])
-        if co in (None, False, 0):
-            bound = 0
-        elif co is True:
-            bound = 10     # "conservatively small" documented default
-        elif co < 0:
-            bound = len(keys)
-        else:
-            bound = co
-        if alive > bound:
-            bad = "retains %d objects, bound %d" % (alive, bound)
-        if co == -1 and alive < len(keys):
-            bad = "negative value must cache everything, retains %d of %d" % (alive, len(keys))
-        res.append({"cache_objects": co, "alive": alive, "bound": bound, "bad": bad})
+        try:
+            with common.Watchdog(60):
+                res.append(_cache_objects_case(i, co, base))
+        except common.StepTimeout as e:
+            res.append({"cache_objects": co, "alive": None, "bound": None, "bad": "store operations do not return (%s)" % e})
         api._store_var = None
     return res
 
